@@ -73,15 +73,26 @@ Definition spaced (times : list Z) (b : Z) (lo hi : N) : bool :=
                     end)
           (heights_from lo (N.to_nat (hi - lo))).
 
+(** consecutive header times of heights lo..hi never decrease *)
+Definition mono_b (times : list Z) (lo hi : N) : bool :=
+  forallb (fun h => match tm times h, tm times (h + 1) with
+                    | Some t, Some t' => (t <=? t')%Z
+                    | _, _ => false
+                    end)
+          (heights_from lo (N.to_nat (hi - lo))).
+
 (** no header that was retrievable before and is gone afterwards is younger than
-    the pruning window (counted from the network head the tail was computed for) *)
+    the pruning window (counted from the network head the tail was computed for):
+    asked whenever header times do not decrease from the old tail on (the
+    hypothesis of C16_keeps_window; spacing by at most blockTime implies it), for
+    any block time; "older than the window" is strict, as proved *)
 Definition keeps_window (c : case16) : bool :=
   let p := k_params c in let times := k_times c in let st := k_store c in
   let st' := o_store (k_obs c) in
   let n := net_head times in
-  if window_mode p && (0 <? p_block p)%Z && negb (st_empty st) && spaced times (p_block p) (s_tail st) n then
+  if window_mode p && negb (st_empty st) && mono_b times (s_tail st) n then
     forallb (fun h => negb (st_has st h && negb (st_has st' h))
-                      || (tm0 times h <=? tm0 times n - p_window p)%Z)
+                      || (tm0 times h <? tm0 times n - p_window p)%Z)
             (heights_from 1 (length times))
   else true.
 
@@ -173,21 +184,29 @@ Qed.
 
 (** the window clause of the oracle holds of every run of the model (theorem
     [start_keeps_window], in boolean form) *)
+Lemma mono_b_sound times lo hi : mono_b times lo hi = true ->
+  forall h, lo <= h < hi -> (0 <= tmf times (h + 1) - tmf times h)%Z.
+Proof.
+  unfold mono_b. rewrite forallb_forall. intros H h Hh.
+  assert (Hin : In h (heights_from lo (N.to_nat (hi - lo)))) by (apply heights_from_in; rewrite N2Nat.id; lia).
+  specialize (H h Hin). cbn beta in H. unfold tmf, tm0.
+  destruct (tm times h); [|discriminate]. destruct (tm times (h + 1)); [|discriminate]. lia.
+Qed.
+
 Lemma keeps_window_model p times now st :
   wf st (net_head times) -> net_head times + 2 < two64 -> 1 <= net_head times -> sane (p_window p) ->
   keeps_window (Case16 p times now st (start_step p times now st)) = true.
 Proof.
   intros Hwf H64 Hn Sw. unfold keeps_window. cbn [k_params k_times k_store k_obs].
-  destruct (window_mode p && (0 <? p_block p)%Z && negb (st_empty st) &&
-            spaced times (p_block p) (s_tail st) (net_head times)) eqn:C; [|reflexivity].
+  destruct (window_mode p && negb (st_empty st) && mono_b times (s_tail st) (net_head times)) eqn:C; [|reflexivity].
   assert (Hwm : window_mode p = true) by lia.
-  assert (Hsp : spaced times (p_block p) (s_tail st) (net_head times) = true) by lia.
+  assert (Hsp : mono_b times (s_tail st) (net_head times) = true) by lia.
   unfold window_mode, hash_unset in Hwm.
   destruct (p_hash p) eqn:Hh; try discriminate. cbn in Hwm.
   apply forallb_forall. intros h _.
   destruct (st_has st h) eqn:E1; [|reflexivity].
   destruct (st_has (o_store (start_step p times now st)) h) eqn:E2; [reflexivity|]. cbn.
-  pose proof (start_keeps_window p times now st Hwf H64 Hn Hh ltac:(lia) Sw (spaced_mono _ _ _ _ Hsp) h E1 E2) as K.
+  pose proof (start_keeps_window p times now st Hwf H64 Hn Hh ltac:(lia) Sw (mono_b_sound _ _ _ Hsp) h E1 E2) as K.
   unfold tmf in K. lia.
 Qed.
 
@@ -252,7 +271,7 @@ Qed.
     One case = one Start() with one injected fault of the getter or of the store.
     What the property can still ask of such a run (see Props/C16_more.v: the full
     "one gap-free chain, nothing outside" is REFUTED for failing environments): *)
-Record case16f := Case16f { kf_fault : fault; kf_case : case16 }.
+Record case16f := Case16f { kf_fault : fault; kf_reqs : list greq; kf_case : case16 }.
 
 Definition model16f (c : case16f) : obs :=
   let c0 := kf_case c in
@@ -294,5 +313,67 @@ Definition ok16f (c : case16f) : bool :=
   | OInvalid => negb (valid_spec p)
   end.
 
+Definition greq_eqb (a b : greq) : bool :=
+  match a, b with
+  | GHash x, GHash y => x =? y
+  | GRange x1 x2, GRange y1 y2 => (x1 =? y1) && (x2 =? y2)
+  | _, _ => false
+  end.
+
+(** the Get(hash) / GetRangeByHeight requests the model expects inside subjectiveTail *)
+Definition model16f_reqs (c : case16f) : list greq :=
+  let c0 := kf_case c in
+  start_reqs (kf_fault c) (k_params c0) (k_times c0) (k_now c0) (k_store c0).
+
+(** the downward sync asks only for headers between the new and the old tail, in
+    chunks of at most 64, and never for a height outside the network chain *)
+Definition reqs_ok (c : case16f) : bool :=
+  let c0 := kf_case c in
+  forallb (fun r => match r with
+                    | GHash _ => true
+                    | GRange a b => (1 <=? a) && (a + 1 <? b) && (b <=? a + chunk_size + 1)
+                                    && (b <=? s_tail (k_store c0) + 1)
+                    end) (kf_reqs c).
+
 Definition chk16f (c : case16f) : bool * bool * N :=
-  (obs_eqb (model16f c) (k_obs (kf_case c)), ok16f c, 0).
+  (obs_eqb (model16f c) (k_obs (kf_case c)) && list_eqb greq_eqb (model16f_reqs c) (kf_reqs c),
+   ok16f c && reqs_ok c, 0).
+
+(** * The gossip verifier closure (extra driver [gossip]) *)
+Record case16g := Case16g { kg_case : case16 }.
+
+Definition model16g (c : case16g) : obs :=
+  let c0 := kg_case c in gossip_step (k_params c0) (k_times c0) (k_store c0).
+
+Definition ok16g (c : case16g) : bool :=
+  let c0 := kg_case c in
+  let p := k_params c0 in let o := k_obs c0 in let st := k_store c0 in
+  match o_out o with
+  | OPanic | OInvalid => false
+  | OErr =>   (* only a head the verification refuses: not above the local head, or older than it *)
+    negb ((s_head st <? net_head (k_times c0)) && (tm0 (k_times c0) (s_head st) <=? tm0 (k_times c0) (net_head (k_times c0)))%Z)
+    && store_eqb st (o_store o)
+  | OOk =>
+    (negb (window_mode p) || forallb (fun h => in_chain (k_times c0) h) (o_req o))
+    && store_chain_ok c0 && keeps_window c0
+  end.
+
+Definition chk16g (c : case16g) : bool * bool * N :=
+  (obs_eqb (model16g c) (k_obs (kg_case c)), ok16g c, 0).
+
+(** the oracle and the faulted model: whatever fault fires, the store the model's
+    run leaves behind satisfies the weaker store clause of [ok16f] *)
+Lemma lwf_loose_ok times st : lwf st (net_head times) -> loose_store_ok times st = true.
+Proof.
+  intros [Hc F]. unfold loose_store_ok. apply andb_true_intro. split.
+  - unfold st_empty. destruct Hc as [[-> ->]|Hc]; [reflexivity|].
+    destruct (N.eqb_spec (s_tail st) 0); lia.
+  - apply forallb_forall. intros e He. rewrite Forall_forall in F. destruct (F e He) as [Hr Hd].
+    assert (I : in_chain times e = true) by (apply in_chain_spec; exact Hr). rewrite I.
+    unfold st_empty. destruct (N.eqb_spec (s_tail st) 0); cbn; [reflexivity|]. lia.
+Qed.
+
+Theorem model16f_loose f p times now st :
+  wf st (net_head times) -> net_head times + 2 < two64 ->
+  loose_store_ok times (o_store (start_step_f f p times now st)) = true.
+Proof. intros Hwf H64. apply lwf_loose_ok. apply start_step_f_store; assumption. Qed.
